@@ -11,5 +11,5 @@ CONSTANTS
   LocalChoices = {0, 1, 2, 3}
 INIT MCInit
 NEXT Next
-INVARIANTS TypeOK InitIsLegal C01_Match C01_Untouched BlockedUntouched OutOfScopeUntouched NoRewindAny C02_Gate C02_FewImpliesFailure C02_FailedUnchanged ErrorBeforeApplyUnchanged EmitInv
+INVARIANTS TypeOK InitIsLegal C01_Match C01_Untouched BlockedUntouched OutOfScopeUntouched NoRewindAny C02_Gate C02_FewImpliesFailure C02_FewOfferedImpliesFailure C02_FailedUnchanged ErrorBeforeApplyUnchanged EmitInv
 PROPERTIES C02_NoRewind
